@@ -437,6 +437,12 @@ func (ipfs *Connector) pinProgress(ctx context.Context, hash cid.Cid, maxDepth a
 				return ctx.Err()
 			default:
 				if err == io.EOF {
+					// ipfs reports errors that happen once the
+					// response has started (i.e. after sending
+					// progress) in a trailer.
+					if trailerErr := res.Trailer.Get("X-Stream-Error"); trailerErr != "" {
+						return errors.New(trailerErr)
+					}
 					return nil // clean exit. Pinned!
 				}
 				return err // error decoding
